@@ -21,6 +21,7 @@ import Bermuda.Lemmas.FrameParse
 import Bermuda.Lemmas.FrameArrayFull
 import Bermuda.Lemmas.FrameRows
 import Bermuda.Lemmas.FrameMatrixTotal
+import Bermuda.Lemmas.FrameInfer
 namespace Bermuda.Properties.C14
 open Bermuda Bermuda.Frame Bermuda.Spec.C14
 
@@ -269,7 +270,7 @@ theorem wfwide_example : WFwide ex ["coverage"] [] where
   names := by
     have hF : allFields ex = ["paid_loss"] := by decide +kernel
     rw [hF]
-    exact ⟨by unfold strictKeys; decide, by unfold strictKeys; decide, by decide, by decide, by decide⟩
+    exact ⟨by decide, by decide, by decide, by decide, by decide⟩
   cells := by
     have hF : allFields ex = ["paid_loss"] := by decide +kernel
     rw [hF]
@@ -318,7 +319,7 @@ theorem wfwide_ragged_example : WFwide exRag ["coverage"] [] where
   names := by
     have hF : allFields exRag = ["paid_loss", "reported_loss"] := by decide +kernel
     rw [hF]
-    exact ⟨by unfold strictKeys; decide, by unfold strictKeys; decide, by decide, by decide, by decide⟩
+    exact ⟨by decide, by decide, by decide, by decide, by decide⟩
   cells := by
     have hF : allFields exRag = ["paid_loss", "reported_loss"] := by decide +kernel
     rw [hF]
@@ -1061,7 +1062,7 @@ theorem wfwideIncr_example : WFwideIncr exI ["coverage"] [] where
   names := by
     have hF : allFields exI = ["paid_loss"] := by decide +kernel
     rw [hF]
-    exact ⟨by unfold strictKeys; decide, by unfold strictKeys; decide, by decide, by decide, by decide⟩
+    exact ⟨by decide, by decide, by decide, by decide, by decide⟩
   cells := by
     have hF : allFields exI = ["paid_loss"] := by decide +kernel
     rw [hF]
@@ -1111,6 +1112,44 @@ theorem wflongIncr_example : WFlongIncr exI ["coverage"] [] where
     | some data => exact ⟨data, rfl, by simpa [hd] using this⟩
   one := by decide +kernel
   inj := by decide +kernel
+
+
+/-! ### The wide reader with `detail_cols=None` -/
+
+/-- **fromWide_toWide_inferred**: `from_wide_csv(file, field_cols=fields, loss_detail_cols=L)` — `detail_cols`
+left out, so the reader takes `list(set(columns) - CORE_SET - set(field_cols))` (`Frame.inferCols`) — gives the
+triangle back, for a well-formed cumulative triangle all of whose detail names `D` occur in some slice (a name
+that occurs nowhere has no column). The inferred list is `D` in another order (`inferCols_written`); the
+reader does not depend on that order — `WFwide` now asks `D`, `L` only to be duplicate-free, no longer
+sorted (`rowDetails_eq_nodup`). The long reader ALWAYS infers its detail columns (`longDetailCols`), which is
+part of `fromLong_toLong`. -/
+theorem fromWide_toWide_inferred {t : List Cell} {D L : List String} (h : WFwide t D L)
+    (hocc : ∀ k ∈ D, k ∈ allMetadataNames t) :
+    okAnd (fun out => wideSpec t out && slicesSpec false t out)
+      ((toWideRows t).bind fun tb => fromWideRowsInfer tb (some (allFields t)) none L) = true :=
+  Frame.fromWide_toWide_inferred h hocc
+
+/-- … and for incremental triangles (`WFwideIncr`) -/
+theorem fromWide_toWide_incremental_inferred {t : List Cell} {D L : List String} (h : WFwideIncr t D L)
+    (hocc : ∀ k ∈ D, k ∈ allMetadataNames t) :
+    okAnd (fun out => wideSpec t out && slicesSpec false t out)
+      ((toWideRows t).bind fun tb => fromWideRowsInfer tb (some (allFields t)) none L) = true :=
+  Frame.fromWide_toWide_incremental_inferred h hocc
+
+/-- the inferred detail columns of the written table are the names of `D`, without duplicates -/
+theorem inferCols_written {t : List Cell} {D L : List String} (h : WFwide t D L)
+    (hocc : ∀ k ∈ D, k ∈ allMetadataNames t) {E : Row → Row} (hE : KeepsOthers E) :
+    (inferCols (mkTable (t.map (wblock t E)).flatten).cols (allFields t)).Nodup ∧
+    ∀ k, k ∈ inferCols (mkTable (t.map (wblock t E)).flatten).cols (allFields t) ↔ k ∈ D :=
+  Frame.inferCols_written h hocc hE
+
+/-- the hypothesis is satisfiable: in `ex` the detail name `coverage` occurs -/
+theorem inferred_example : ∀ k ∈ ["coverage"], k ∈ allMetadataNames ex := by
+  intro k hk
+  simp only [List.mem_cons, List.not_mem_nil, or_false] at hk
+  subst hk
+  refine mem_allMetadataNames.mpr ⟨exCell ⟨2020, 12, 31⟩ (.arr false [2] [1, 2]) "DE", List.mem_cons_self, ?_⟩
+  decide +kernel
 
 
 end Bermuda.Properties.C14
